@@ -153,7 +153,7 @@ PROPS = {
             "set_config cannot change probe timing nor enable a periodic task": "theorem (full, over the generated guard): set_config_cannot_enable_loops",
             "Timer ordering helper: SendIndirectProbe before ProbeRandomMember, injective on kinds": "theorem (full, over the generated Timer::seq): indirect_sorts_before_probe, seq_separates_kinds",
             "exactly one outstanding probe timer and one per enabled periodic task while active, none effective otherwise (whole histories)": "theorem (full for all four loops; timers delivered exactly once, in any order, interleaved with any calls including set_config; assumptions as in the property: the u8 token does not wrap onto an outstanding timer [FreshFor, fewer than 256 epoch changes per call], no send of a probe round fails with Encode): C13H.exactly_one_timer_per_loop over C13H.LoopHistory, corollaries exactly_one_probe_timer, exactly_one_timer_per_enabled_task; steps loop_step_other, loop_step_probe, loop_step_periodic; Proofs/Timers.lean (TimInv per loop kind with a ghost epoch counter in the model state; probeRandomMember_rearms, periodic*_round), Proofs/Quiet.lean",
-            "no error under deadline-order delivery": "partial: validate_only_needs_indirect_stage, indirect_sorts_before_probe per call; over histories by search (exactly-once timer queue simulation, in-order and random delivery) and correspondence",
+            "no error under deadline-order delivery": "theorem (full for the probe timer, modulo the time model): C13H.outstanding_probe_timer_errors — delivering a probe timer the instance scheduled returns Ok, the Encode error of a send, or IncompleteProbeCycle, the latter only when the previous round still has a target whose SendIndirectProbe timer was not delivered (probe.validate = false), never NotConnected; Timers.probeRandomMember_valid_err; that deadline order implies the SendIndirectProbe timer (probe_rtt < probe_period) was delivered first is the runtime's side and is explored by search (timer queue simulation); periodic timers never return an error other than a send's Encode (loop_step_periodic covers every outcome)",
         },
         RULE_HIST + "search: histories in which every timer the instance schedules is delivered exactly once (in deadline order or in random order), interleaved with datagrams and API calls; outstanding timers per epoch counted after every call.",
         ["the runtime delivers each scheduled timer exactly once; fewer than 256 epoch changes between issue and delivery", "FitsAllHeaders (an Encode error in probe_random_member loses the probe loop: the crate's own NEEDSWORK)"],
